@@ -31,7 +31,7 @@ def plan(tier, seed):
     n = 8 if tier == "quick" else 32
     return [{"tier": tier, "seed": seed, "shard": i, "fixtures": fx[i::n],
              "gen_start": i * (6 if tier == "quick" else 40), "gen_count": 6 if tier == "quick" else 40,
-             "per_file": 90 if tier == "quick" else 600} for i in range(n)]
+             "per_file": 140 if tier == "quick" else 600} for i in range(n)]
 
 
 # ------------------------------------------------------------------ navigation
